@@ -379,7 +379,9 @@ def fam_unit(params, tier, acc):
     sizes = [(1, 1), (2, 1), (3, 1), (2, 2), (5, 1), (1, 5), (3, 3)]
     if tier != "quick":
         sizes += [(5, 2), (5, 5), (9, 1)]
-    bound = scope(tier)["random_bound"]
+    # thorough: one deviation from the fair stream, for the uniform-random
+    # placer only (an annealing run draws hundreds of numbers)
+    bound = scope(tier)["random_bound"] if placer == "rand" else 0
     i = -1
     for cfg in machine_configs(sizes, [1, 2]):
         i += 1
@@ -459,7 +461,7 @@ def fam_general(params, tier, acc):
     placer, k, K = params["placer"], params["k"], params["K"]
     sizes = [(1, 1), (2, 1), (2, 2), (3, 1)]
     maxn = scope(tier)["general_vertices"]
-    bound = scope(tier)["random_bound"]
+    bound = scope(tier)["random_bound"] if placer == "rand" else 0
     i = -1
     for cfg in machine_configs(sizes, [1, 2, 3]):
         if cfg.get("exceptions") and cfg["reservations"]:
